@@ -398,7 +398,7 @@ func expandHelperAtoms(p *core.Prog, d Driver, atoms []core.Atom, depth int) []a
 			}
 		} else if res.Len() == 1 && errIdx == 0 && isErrorType(res.At(0).Type()) {
 			// error-only helper
-		} else if res.Len() == 2 && errIdx == 1 && isErrorType(res.At(1).Type()) && f.Signature.Recv() != nil && types.Identical(f.Signature.Recv().Type(), types.NewPointer(d.Named)) && !isAccessorName(f.Name()) {
+		} else if res.Len() == 2 && errIdx == 1 && isErrorType(res.At(1).Type()) && d.Named != nil && f.Signature.Recv() != nil && types.Identical(f.Signature.Recv().Type(), types.NewPointer(d.Named)) && !isAccessorName(f.Name()) {
 			valueIdx = 0
 		} else {
 			continue // value-producing functions stay opaque: their results are keys / fields of the reply
@@ -448,4 +448,14 @@ func expandHelperAtoms(p *core.Prog, d Driver, atoms []core.Atom, depth int) []a
 
 func isAccessorName(n string) bool {
 	return strings.HasPrefix(n, "find") || strings.HasPrefix(n, "get") || strings.HasPrefix(n, "store")
+}
+
+// openPredicates opens the boolean / error-only helpers of package pkg (short name) in a list of path conditions: the generic
+// form of expandHelperAtoms for functions that are not matchers (validators, decoders, selectors).
+func openPredicates(p *core.Prog, pkg string, atoms []core.Atom) [][]core.Atom {
+	var out [][]core.Atom
+	for _, v := range expandHelperAtoms(p, Driver{Pkg: pkg}, atoms, 0) {
+		out = append(out, v.resolved())
+	}
+	return out
 }
